@@ -113,6 +113,7 @@ class Walker:
     def field(self, f, bounds):
         virtual = not f.has_field("location")
         d = {"name": f.name.name.text, "virtual": virtual, "attrs": self.attrs(f),
+             "loc": str(f.source_location),
              "ty": {"a": [0, None]}, "start": None, "size": None, "min": "0", "max": "0",
              "vkind": "other"}
         if virtual:
@@ -462,6 +463,36 @@ EARLY_KINDS = {"param-needs-size", "param-enum-sized"}
 # kinds reported by attribute_util._check_attributes (the attribute-table rule family)
 ATTR_TABLE_KINDS = ("dup-attr", "unknown-attr", "no-default", "attr-type", "attr-const", "attr-choice",
                     "attr-back-ends")
+
+
+# kinds reported by attribute_checker._verify_attributes_on_ir, and those of its `Field` traversal
+VERIFY_KINDS = ("back-end-mismatch", "fixed-size-variable", "fixed-size-mismatch", "max-bits-range",
+                "unit-missing", "unit-bad", "bo-not-allowed", "bo-required", "bo-null", "requires-array",
+                "requires-type")
+FIELD_VERIFY_KINDS = ("bo-not-allowed", "bo-required", "bo-null", "requires-array", "requires-type")
+
+
+def fields_by_id(program):
+    """(type id, field name) -> field of the abstract program; and the value spans of every
+    `$default byte_order` attribute (where an inherited byte order's errors are reported)."""
+    out, defaults = {}, set()
+
+    def note(attrs):
+        for a in attrs:
+            if a["d"] and a["n"] == "byte_order":
+                defaults.add(a["loc"]["value"])
+
+    def go(td):
+        note(td["attrs"])
+        for f in td["fields"]:
+            out.setdefault((td["id"], f["name"]), f)
+        for s in td["sub"]:
+            go(s)
+    for m in program:
+        note(m["attrs"])
+        for td in m["types"]:
+            go(td)
+    return out, defaults
 
 
 def attr_lists(program):
